@@ -403,4 +403,62 @@ def edgeAvoids (R : Rect) (x1 y1 x2 y2 : Rat) : Bool :=
 def hasConnIn (conns : List Conn) (R : Rect) : Bool :=
   conns.any fun c => decide (R.x0 < c.x) && decide (c.x < R.x1) && decide (R.y0 < c.y) && decide (c.y < R.y1)
 
+/-! ### `setLongRangeVisibilityFlags` (`VertInf::orthogVisPropFlags`)
+
+Every breakpoint of a line is marked with what lies before / behind it ON THAT LINE in the order of the
+`BreakpointSet`: a connector end point (`*_CONN`) and/or a shape-corner vertex (`*_EDGE`,
+`dummyOrthogShapeID`).  A vertex seen at the SAME position but earlier in the set order counts too.
+Which dummy vertices are shape corners is recomputed from the candidate segments of the rectangle sides
+that a merged line covers (the model's `node` kind does not distinguish them). -/
+
+def XL_EDGE : Nat := 1
+def XL_CONN : Nat := 2
+def XH_EDGE : Nat := 4
+def XH_CONN : Nat := 8
+def YL_EDGE : Nat := 16
+def YL_CONN : Nat := 32
+def YH_EDGE : Nat := 64
+def YH_CONN : Nat := 128
+
+/-- candidate segments of the rectangle sides only (all their vertices are shape corners) -/
+def rawSides (lo hi : Rat) (rects : List Rect) : List Seg :=
+  rects.zipIdx.flatMap fun (v, i) => sideSegsH lo hi rects i v v.y0 ++ sideSegsH lo hi rects i v v.y1
+
+/-- positions of the shape-corner vertices on the merged line `h` -/
+def cornersOn (sides : List Seg) (h : Seg) : List Rat :=
+  (sides.filter fun r => r.p == h.p && decide (h.b ≤ r.b) && decide (r.f ≤ h.f)).flatMap fun r => r.vs.map (·.t)
+
+/-- one pass of `setLongRangeVisibilityFlags`: the mask each element gets from the elements before it -/
+def scanMask (edgeBit connBit : Nat) : Bool → Bool → List (Bool × Bool) → List Nat
+  | _, _, [] => []
+  | seenConn, seenEdge, (isConn, isEdge) :: r =>
+    ((if seenConn then connBit else 0) + (if seenEdge then edgeBit else 0)) ::
+      scanMask edgeBit connBit (seenConn || isConn) (seenEdge || isEdge) r
+
+/-- flags of the breakpoints of one line (sorted breakpoints with "is connector end point" / "is shape
+    corner"): low-side bits from the forward pass, high-side bits from the backward pass -/
+def lineFlags (lowEdge lowConn highEdge highConn : Nat) (l : List (Bool × Bool)) : List Nat :=
+  let f := scanMask lowEdge lowConn false false l
+  let b := (scanMask highEdge highConn false false l.reverse).reverse
+  List.zipWith (· + ·) f b
+
+/-- `(point, kind, flag bits contributed by one line)` for all breakpoints of all lines -/
+def Scene.flagParts (s : Scene) : List (GV × Nat) :=
+  let L := s.lines
+  let sidesH := rawSides s.lo s.hi s.rects
+  let vl := L.vs.map (·.1)
+  (L.hs.flatMap fun (h, vs) =>
+    let cs := cornersOn sidesH h ++
+      (if (vl.filter (crosses h)).any (fun v => v.p == h.b && endVert h v) then [h.b] else [])
+    let bps := sortLV vs
+    let fl := lineFlags XL_EDGE XL_CONN XH_EDGE XH_CONN (bps.map fun q => (q.k.isConn, !q.k.isConn && cs.contains q.t))
+    List.zipWith (fun q f => ((⟨q.t, h.p, q.k⟩ : GV), f)) bps fl) ++
+  (L.vs.flatMap fun (v, vs) =>
+    -- a dummy vertex received from the horizontal line `h` is a shape corner iff it is one on `h`
+    let cs := L.hs.flatMap fun (h, _) =>
+      if crosses h v && ((cornersOn sidesH h).contains v.p || ((v.p == h.b || v.p == h.f) && endVert h v)) then [h.p] else []
+    let bps := sortLV vs
+    let fl := lineFlags YL_EDGE YL_CONN YH_EDGE YH_CONN (bps.map fun q => (q.k.isConn, !q.k.isConn && cs.contains q.t))
+    List.zipWith (fun q f => ((⟨v.p, q.t, q.k⟩ : GV), f)) bps fl)
+
 end AdaptaVerif.Model.OrthVis
